@@ -50,7 +50,11 @@ struct StackT {
     size: usize,
 }
 
+#[cfg(target_pointer_width = "64")]
 pub const BASE: usize = 0x6100_0000_0000;
+/// 32-bit targets are only used under the interpreter (arena off); the value is never mapped
+#[cfg(not(target_pointer_width = "64"))]
+pub const BASE: usize = 0x6100_0000;
 pub const PAGE: usize = 4096;
 pub const PAGES: usize = 1 << 17;
 const MAX_BLOCK_PAGES: usize = 64;
